@@ -2030,6 +2030,13 @@ class TrajectoryStore:
                 raise ValueError(f'Input TrajectoryStore file "{p}" does not exist')
             if Path(p).suffix != '.nc':
                 raise ValueError(f'Merge input "{p}" is not a NetCDF file')
+        # The inputs are moved into one directory under their own file names.
+        names = [Path(p).name for p in input_stores]
+        if len(set(names)) != len(names):
+            raise ValueError(
+                'Merge inputs must have distinct file names '
+                '(they are moved into one directory)'
+            )
         if not str(output_store).endswith('.aeic-store'):
             raise ValueError(
                 'Output TrajectoryStore file must have ".aeic-store" extension'
